@@ -165,6 +165,59 @@ Inductive aval := AScalar (v : sval) | AList (l : list sval).
    (`?=` carries none; `=` exactly one; `*=`/`+=` the non-separator children in order) *)
 Record ev := Ev { ev_attr : nat; ev_op : asgop; ev_vals : list sval }.
 
+(* A child of an assignment node in the parse tree: was it produced by the repetition's separator expression,
+   is its rule name "sep" (always so for separator nodes; also for a value matched by a grammar rule called `sep`),
+   and what process_node returns for it (for a separator terminal: its text). *)
+Record child := Child { c_sep : bool; c_named_sep : bool; c_val : sval }.
+
+(* an assignment node: attribute, operator, does the repetition carry a separator, the children *)
+Record anode := ANode { n_attr : nat; n_op : asgop; n_has_sep : bool; n_kids : list child }.
+
+(* the list handler's loop `for n in node: if <not a separator>: ... append(process_node(n))` *)
+Definition kept (mode : sepmode) (has_sep : bool) (idx : nat) (c : child) : bool :=
+  match mode with
+  | SepByNode => negb (has_sep && c_sep c)            (* sep_rule is None or n.rule is not sep_rule *)
+  | SepByName => negb (c_named_sep c)                  (* n.rule_name != "sep" *)
+  | SepByPosition => negb (has_sep && Nat.odd idx)     (* not (has_sep and idx % 2) *)
+  end.
+
+Fixpoint child_values_from (mode : sepmode) (has_sep : bool) (idx : nat) (cs : list child) : list sval :=
+  match cs with
+  | [] => []
+  | c :: r => (if kept mode has_sep idx c then [c_val c] else []) ++ child_values_from mode has_sep (S idx) r
+  end.
+Definition child_values (mode : sepmode) (has_sep : bool) (cs : list child) : list sval :=
+  child_values_from mode has_sep 0 cs.
+
+(* the values the elements of the repetition matched, in order *)
+Definition elem_values (cs : list child) : list sval := map c_val (filter (fun c => negb (c_sep c)) cs).
+
+(* the event the builder sees for a node: `=` converts node[0], `?=` nothing, `*=`/`+=` the kept children *)
+Definition node_ev (mode : sepmode) (n : anode) : ev :=
+  Ev (n_attr n) (n_op n)
+     match n_op n with
+     | OpPlain => match n_kids n with c :: _ => [c_val c] | [] => [] end
+     | OpBool => []
+     | OpStar | OpPlus => child_values mode (n_has_sep n) (n_kids n)
+     end.
+
+(* a node as the parser builds it: separator children only below a repetition with a separator, none below `=`/`?=` *)
+Definition node_wf (n : anode) : bool :=
+  match n_op n with
+  | OpStar | OpPlus => n_has_sep n || forallb (fun c => negb (c_sep c)) (n_kids n)
+  | OpPlain | OpBool => forallb (fun c => negb (c_sep c)) (n_kids n)
+  end.
+
+(* the values matched for a by a sequence of nodes, in input order *)
+Definition node_values (a : nat) (ns : list anode) : list sval :=
+  flat_map (fun n => if Nat.eqb a (n_attr n) then
+                       match n_op n with
+                       | OpBool => [SBool true]
+                       | OpPlain => match n_kids n with c :: _ => [c_val c] | [] => [] end
+                       | OpStar | OpPlus => elem_values (n_kids n)
+                       end
+                     else []) ns.
+
 Inductive outcome := Ok (v : aval) | MultipleAssignments | Crash.
 
 (* model.py process_node, assignment branch, projected on the attribute being assigned *)
@@ -223,18 +276,17 @@ Definition ev_ok (e : ev) : Prop :=
   match ev_op e with
   | OpPlain => exists v, ev_vals e = [v]
   | OpBool => ev_vals e = []
-  | OpStar => True
-  | OpPlus => ev_vals e <> []
+  | OpStar | OpPlus => True
   end.
 
 (* The traces of assignment events a body can produce for one object (grammar structure only:
-   any alternative, any number of iterations, unordered-group elements in any order). *)
+   any alternative, any number of iterations, unordered-group elements in any order; an assignment may stay silent). *)
 Fixpoint emits (b : body) (t : list ev) {struct b} : Prop :=
   match b with
   | BTok => t = []
   | BAsg a op =>
       (exists e, t = [e] /\ ev_attr e = a /\ ev_op e = op /\ ev_ok e)
-      \/ (t = [] /\ (op = OpBool \/ op = OpStar))
+      \/ t = []      (* no node: the right-hand side matched nothing / the empty string (Arpeggio drops falsy results) *)
   | BSeq l =>
       (fix go (l : list body) (t : list ev) : Prop :=
          match l with
